@@ -43,6 +43,9 @@ CHECKS = {
     "C20": dict(ready=True, category="exploration", technique="runtime monitoring: differential monitor - quoted InsertionCost components against the realised per-layer fitness change after carrying the insertion out through a real recreate step",
         text="On finalised micro-states the evaluator's quote for every tour (and the empty tour of every unused vehicle) at every Concrete(p) and Any is compared, layer by layer, with fitness(after) - fitness(before) where 'after' comes from InsertionHeuristic::process with a once-only evaluator; layers unassigned, tours, distance, value in all 48 goal orders; the cost layer only when the independent simulator finds zero waiting before and after.",
         note="Single-objective layers, metric routing, no left-over empty tours; O3 only names the side at fault.", design_ref="DESIGN.md §3 C20"),
+    "C17": dict(ready=True, category="exploration", technique="runtime monitoring: contract monitors on every returned result (permutation / start node / cost not worse / logical step bound for LKH; disjoint, core-grown, density-reachable, no core unclustered for DBSCAN via own BFS; partition + nearest-medoid for k-medoids)",
+        text="Directed seed-independent sets (all start permutations for n <= 5, 240 tiny DBSCAN inputs, k-medoids grids) plus seeded random geometry classes (float Euclid, integer grids with ties, duplicates, collinear, clustered, non-metric) with complete / k-nearest neighbour lists and start paths not starting at node 0; termination is bounded progress: cost-oracle calls are counted and exceeding max(2000 n^3, 200000) is a violation with the matrix as witness.",
+        note="Symmetric finite costs; DBSCAN maximality is not stated by the property (observed only); k > n unspecified.", design_ref="DESIGN.md §3 C17"),
     "C03": dict(ready=True, category="exploration", technique="runtime monitoring: replay oracle recomputing schedule/load/distance/statistics/cost from routing data and visiting order, compared with every reported number",
         text="O1 replays each tour of each recorded solution from (visiting order, first departure): stop arrival/departure within the one-unit output rounding, per-stop load and cumulative distance exactly, tour and overall statistics, cost = fixed + distance*cd + duration*ct, and that the reported place tag belongs to a place explaining the reported interval.",
         note="Integral matrices/durations; fractional profile scale widens the per-leg split tolerance; tours with transit stops/commute only per-stop consistency (not generated).", design_ref="DESIGN.md §3 C03"),
